@@ -505,7 +505,11 @@ struct Facts {
 fn direct_deps(v: &V, out: &mut Vec<usize>) {
     match v {
         V::Text(_) | V::Suspense { .. } | V::Await(..) => {}
-        V::Suspend(k, _) => out.push(*k),
+        // `Suspend::resolve` resolves its output too (fix-c07-4)
+        V::Suspend(k, kids) => {
+            out.push(*k);
+            kids.iter().for_each(|x| direct_deps(x, out))
+        }
         V::El(_, k) | V::Tup(k) | V::List(k) | V::Eb(k) => k.iter().for_each(|x| direct_deps(x, out)),
     }
 }
@@ -678,7 +682,8 @@ fn start(level_b: bool, free: bool, mode: &str, d0: &str, toks: &[&str]) -> Stri
         let reference = new_owner().with(|| build_resolved(&root).to_html());
         let mut f = Facts::default();
         facts(&root, &vec![], &Some(None), &mut f);
-        let known_class = has_eb(&root) || has_nested_suspend(Ctx::Top, &root);
+        // no known-finding class is left after fix-c07-2..5: every oracle applies to every view
+        let known_class = false;
         let mut all_futs = vec![];
         futs_of_views(std::slice::from_ref(&root), &mut all_futs);
         Case {
@@ -1331,14 +1336,14 @@ fn gen(seed: u64, n: usize, path: &str, tier: &str) -> std::io::Result<()> {
         let max_f = g.r.range(1, 6);
         let mut extra = 0;
         let (head, futs, level_b, check, tag) = if kind < 5 {
-            let allow_known = g.r.chance(1, 5);
+            let allow_known = g.r.chance(1, 2);
             let n = g.r.range(1, 3);
             let vs: Vec<V> = (0..n).map(|_| g.view(3, max_f, Ctx::Top, allow_known)).collect();
             let mut futs = vec![];
             futs_of_views(&vs, &mut futs);
             extra = async_nodes(&vs);
             let known = has_eb(&V::Tup(vs.clone())) || has_nested_suspend(Ctx::Top, &V::Tup(vs.clone()));
-            let tag = if futs.is_empty() { "view~plain" } else if known { "view~known-class" } else { "view" };
+            let tag = if futs.is_empty() { "view~plain" } else if known { "view~repaired-class" } else { "view" };
             let mut toks = vec![];
             ser_views(&[V::El("div".into(), vs)], &mut toks);
             (format!("view {mode} D0 {}", toks.join(" ")), futs, true, true, tag)
